@@ -498,6 +498,9 @@ func (x *Exec) callCommon(fr *frame, st *State, cc *ssa.CallCommon, args []Val, 
 		if mname == "String" && sig.Params().Len() == 0 && sig.Results().Len() == 1 {
 			return []Val{{T: types.Typ[types.String], L: []Term{x.c.App("stringer", SStr, recv.L[0], recv.L[1])}}}
 		}
+		if res, ok := x.devirtualize(fr, st, cc, recv, args, reach); ok {
+			return res
+		}
 		x.havocCall(st, cc, "invoke "+typeKey(cc.Value.Type())+"."+mname)
 		return x.freshResults(sig, "inv_"+mname)
 	}
